@@ -55,7 +55,7 @@ CHECKS = {
    technique="runtime monitoring: id/nonce echo + health re-check oracle over sequential multiplexed establishments, schedule perturbation at hook points"),
  "C09": dict(
    category="exploration",
-   text="Runtime monitor: histories of unmatched / duplicate / late / expiry-aligned broker operations (the expiry alignment is produced deterministically by blocking the expiry goroutine at a hook point) (incl. a second dial to an id whose waiting accept was already served, an id that is announced twice after a dial to it timed out, a close that follows the plugin's server going away while an AcceptAndServe is pending, a late accept whose ack arrives while another dial is waiting, and -- kind muxraw -- an in-process RPCServer whose session peer opens streams and closes them after 0..3 header bytes, with genuine Dispense+dial pairs in between) on MuxBroker, GRPCBroker and multiplexed GRPCBroker, each followed by matched pairs on fresh ids in both directions and a close; oracle: every call returns (nominal 5 s, hang threshold 40 s), unmatched calls fail, fresh pairs succeed, a final close racing with listener announcements lets every call return, no goroutine with broker frames remains after all clients are closed. The defects it found (D5, D6 stale knock, D19 leaked knock listener) are repaired; known_findings.json holds only fixed entries.",
+   text="Runtime monitor: histories of unmatched / duplicate / late / expiry-aligned broker operations (the expiry alignment is produced deterministically by blocking the expiry goroutine at a hook point) (incl. a second dial to an id whose waiting accept was already served -- also with the first pair's clean-up goroutine held at a hook point while the id is dialled, or accepted and dialled, again --, an id that is announced twice after a dial to it timed out, a close that follows the plugin's server going away while an AcceptAndServe is pending, a late accept whose ack arrives while another dial is waiting, and -- kind muxraw -- an in-process RPCServer whose session peer opens streams and closes them after 0..3 header bytes, with genuine Dispense+dial pairs in between) on MuxBroker, GRPCBroker and multiplexed GRPCBroker, each followed by matched pairs on fresh ids in both directions and a close; oracle: every call returns (nominal 5 s, hang threshold 40 s), unmatched calls fail, fresh pairs succeed, a final close racing with listener announcements lets every call return, no goroutine with broker frames remains after all clients are closed. The defects it found (D5, D6 stale knock, D19 leaked knock listener, D22 used pending entry reused) are repaired; known_findings.json holds only fixed entries.",
    design_ref="DESIGN.md section 3, C09 and section 4 (D5, D6)",
    note="Bounded-progress reading of liveness; thresholds are generous so a loaded machine cannot manufacture alarms.",
    technique="runtime monitoring: bounded-progress oracle over fault histories with hook-controlled line-up, goroutine-dump leak monitor"),
